@@ -84,6 +84,8 @@ func (o *allocOracle) mkCase(s *ctlSys, hist []verifrt.Event) allocCase {
 				x += " [listing " + poolFaultKinds[e.B-1] + " objects fails once]"
 			}
 			c.Readable = append(c.Readable, x)
+		case "touch":
+			c.Readable = append(c.Readable, "unchanged "+o.u.Slots[e.A].Key()+" delivered once more")
 		case "poolresync":
 			c.Readable = append(c.Readable, "pool reconciler re-triggered (nothing it reads changed)")
 		default:
